@@ -28,7 +28,7 @@ from .. import tlc
 # Every dimension of every history design is then within 1000x of every dimension of the probed design.
 FACTORS = [F(1, 50), F(1, 7), F(1), F(7), F(50)]
 KINDS = ["netlist", "die", "alloc", "stog", "encode", "legal", "strop"]
-HIST_KINDS = KINDS + ["undef"]          # undef = the public call Rectangle.undefine_epsilon()
+HIST_KINDS = KINDS + ["undef", "pads"]  # undef = the public call Rectangle.undefine_epsilon(); pads = a netlist of terminals only
 PROBE_KINDS = KINDS + ["sliver"]
 STEPS = [F(1, 10), F(1, 3), F(7, 10), F(11, 10), F(1)]
 
@@ -46,8 +46,12 @@ def unit(rng: random.Random, f: F) -> F:
 
 
 # --------------------------------------------------------------------------------------------- designs
-def d_netlist(rng: random.Random, f: F, bad: bool = False):
+def d_netlist(rng: random.Random, f: F, bad: bool = False, pads: bool = False):
     u = unit(rng, f)
+    if pads:   # a design of I/O pads only: terminals at positions on the design's own unit grid, no extent of their own
+        n = rng.randint(2, 4)
+        mods = {f"T{i}": {"terminal": True, "center": [fl(rng.randint(0, 12) * u), fl(rng.randint(0, 12) * u)]} for i in range(n)}
+        return {"Modules": mods, "Nets": [list(mods)]}
     mods = {}
     n = rng.randint(2, 4)
     for i in range(n):
@@ -201,6 +205,8 @@ def make_design(kind: str, seed: int, sidx: int, probe: bool = False):
     f = FACTORS[sidx]
     if kind == "netlist":
         return d_netlist(rng, f, bad=probe and seed % 3 == 0)
+    if kind == "pads":
+        return d_netlist(rng, f, pads=True)
     if kind == "die":
         return d_die(rng, f, bad=probe and seed % 3 == 0)
     if kind == "alloc":
@@ -348,7 +354,7 @@ def op_undef(_d):
     return ["undefined"]
 
 
-OPS = {"undef": op_undef, "sliver": op_netlist, "netlist": op_netlist, "die": op_die, "alloc": op_alloc, "stog": op_netlist, "encode": op_encode,
+OPS = {"undef": op_undef, "pads": op_netlist, "sliver": op_netlist, "netlist": op_netlist, "die": op_die, "alloc": op_alloc, "stog": op_netlist, "encode": op_encode,
        "legal": op_legal, "strop": op_strop}
 
 
@@ -415,7 +421,7 @@ def run(ctx: Ctx) -> int:
             behaviours.append({"hist": hist, "probe": "sliver", "pseed": rng.randrange(300)})
         # same-subsystem histories: most leak channels are shared by operations of one kind (the tolerance registers by
         # the loaders, the diagram store by encodings, the expression-tree globals by legaliser models)
-        loaders = ["netlist", "die", "alloc", "stog", "legal"]
+        loaders = ["netlist", "die", "alloc", "stog", "legal", "pads"]
         for k in KINDS:
             for _ in range(60 if tier == "quick" else 600):
                 prev = loaders if k in loaders else [k]
